@@ -256,7 +256,7 @@ class Challenges(Sub):
         outs = []
         for _ in range(2):
             p = subprocess.run([sys.executable, "-c", code], stdout=subprocess.PIPE, stderr=subprocess.PIPE,
-                               env={"PYTHONHASHSEED": "0", "PATH": "/usr/bin:/bin"}, timeout=120)
+                               env={"PYTHONHASHSEED": "0", "PATH": "/usr/bin:/bin", "PYTHONDONTWRITEBYTECODE": "1"}, timeout=120)
             if p.returncode != 0:
                 raise H.HarnessError("challenge child failed: " + p.stderr.decode()[-300:])
             outs.append(set(p.stdout.decode().split()))
